@@ -14,7 +14,9 @@ PROP_FILE = "Properties/C08.v"
 PROOF_FILES = ["Proofs/BinarizeProofs.v", "Model/Binarize.v"]
 TRUSTED = [
     "model Model/Binarize.v of utils/trees.py (is_binary, graft, arrange_leaves, binarize) and "
-    "ReconciliationInput.binarize: already-resolved child subtrees are atoms (role of the `ignore` set of topology ids)",
+    "ReconciliationInput.binarize: already-resolved child subtrees are atoms; the literal variant with an explicit `ignore` "
+    "list is proved equal to it (C08_ignore_set_is_atoms) for every id comparison under which equal topology ids imply "
+    "equal leaf sets (true of ete3's md5 get_topology_id barring collisions)",
     "batch `extended_solvers` has no Gallina solver model: the expected value handed to Coq is computed by running the "
     "implementation's own solver on every refinement pair produced by the harness's independent refinement generator",
 ]
@@ -33,8 +35,9 @@ RULE = (
     "several cost vectors, both extended solvers under policy ALL; non-trivial = more than one refinement pair and a positive optimum"
 )
 OPEN_GOALS = [
-    "ext_optimum_refinements_statement: the extended solvers return the arg-min over binarize O x binarize S of the binary "
-    "optimum (needs the solver models of C02/C03 and C16's update_batches; covered here only by the end-to-end batch)",
+    "ext_optimum_refinements_statement (Properties/C08.v): the extended solvers return the arg-min over binarize O x binarize S "
+    "of the binary optimum (needs the solver models of C02/C03 and C16's update_batches; covered here only by the "
+    "end-to-end batch `extended_solvers`)",
 ]
 
 HEADER = "From SR Require Import Model.Binarize.\n"
@@ -384,6 +387,21 @@ def batches(ctx):
         describe="len(binarize(tree)) against the product over nodes of (2k-3)!! (refinement_count) on the same trees",
     )
 
+    # ---------------------------------------------------------------- literal variant
+    yield Batch(
+        name="enumerator_literal", header=HEADER,
+        run="fun t => Some (binarize_lit same_leafset t)",
+        eqb="fun a b => match a, b with Some x, Some y => list_eqb bt_eqb x y | _, _ => false end",
+        ty_in="rose", ty_out="option (list bt)",
+        cases=ccases, impl=impl_a,
+        enc_in=lambda c: enc_rose(c["tree"], bundle_codes(c["tree"])),
+        enc_out=enc_out_a, oracle=oracle_a,
+        nontrivial=lambda c, r: has_polytomy(c["tree"]),
+        exhaustive=True, shard=40,
+        describe="same trees (arities >= 2) against the literal variant of the model: graft on plain trees that stops where "
+                 "the node has the same leaf set as a member of the ignore list (stand-in for equal topology ids)",
+    )
+
     # ---------------------------------------------------------------- (b) inputs
     yield from _input_batch(ctx)
 
@@ -633,7 +651,7 @@ def _cost_code(x):
 def _solver_cases(rng, quick):
     pool = [sh for n in range(2, 5) for sh in shapes(n)]
     poly = [s for s in pool if any(len(x) > 2 for x in _walk(s))]
-    cases, budget = [], (450 if quick else 6000)
+    cases, budget = [], (450 if quick else 15000)
     tries = 0
     while budget > 0 and tries < 2000:
         tries += 1
@@ -752,18 +770,22 @@ def _solver_batch(ctx):
     )
 
 
-TECHNIQUE = ("Coq proof (induction on atom trees / nested rose trees) that the enumerator model is a duplicate-free, complete "
-             "enumeration of the binary refinements with the (2k-3)!! count; model tied to the code by exhaustive small-shape "
-             "correspondence evaluated with vm_compute, list against list in enumeration order")
-LEVEL_TEXT = ("Machine-checked theorems on the model of graft/arrange_leaves/binarize for trees of any size and arity: count, "
-              "soundness (binary, same leaves, clades and labels kept), duplicate-freeness and completeness up to child order. "
-              "The model is compared with utils/trees.py on every rose-tree shape up to 5 (quick) / 6 (thorough) leaves and with "
-              "ReconciliationInput.binarize()+label_internal() on labelled, coloured inputs.")
-LEVEL_NOTE = ("Trusted: Coq kernel; the hand-written model (the atom abstraction of the `ignore` set is differential-tested, not "
-              "proved, and assumes distinct leaf names and no md5 collision). The clause 'the extended solvers return the optimum "
-              "over all binary refinements' is NOT a theorem yet (ext_optimum_refinements_statement is an open goal): it rests only "
-              "on the end-to-end batch, whose Coq side merely folds a minimum over costs that the implementation's own solver "
-              "produced on the harness's independent refinement pairs, and on the harness check that every returned solution "
-              "refers to a binary refinement. Trees with single-child nodes are outside the theorems' hypotheses (binarize "
-              "collapses such a node onto its child and overwrites the child's name); the model mirrors that behaviour and is "
-              "compared on such trees too.")
+TECHNIQUE = ("Coq proof (induction on atom trees / nested induction on rose trees) that the enumerator model is a duplicate-free, "
+             "complete enumeration of the binary refinements with the (2k-3)!! count; model tied to the code by exhaustive "
+             "small-shape correspondence evaluated with vm_compute, list against list in enumeration order")
+LEVEL_TEXT = ("Machine-checked theorems on the model of graft/arrange_leaves/binarize for trees of any size and arity: "
+              "count = product of (2k-3)!!; every result binary with the original leaves, every clade and its label (name, colour) "
+              "kept; no two results equal up to child order (distinct leaf names); every binary tree meeting the clade "
+              "characterisation (same leaves, clades and labels kept, other nodes unlabelled) produced up to child order; arrange_leaves enumerates all binary trees over its atoms exactly once; the literal `ignore`-set "
+              "variant equals the atom variant; a binary input is returned unchanged. "
+              "The model is compared, list against list, with utils/trees.binarize on every rose-tree shape up to 5 (quick) / 6 "
+              "(thorough) leaves and with ReconciliationInput.binarize()+label_internal() on labelled, coloured inputs with leaf data.")
+LEVEL_NOTE = ("Trusted: Coq kernel; the hand-written model (differential-tested, not proved); that equal ete3 topology ids imply "
+              "equal leaf-name sets (no md5 collision) and that leaf names are distinct. "
+              "The clause 'the extended solvers return the optimum over all binary refinements' is NOT a theorem "
+              "(ext_optimum_refinements_statement is an open goal): it rests only on the end-to-end batch `extended_solvers`, "
+              "whose Coq side merely folds a minimum over costs that the implementation's own solver produced on the harness's "
+              "independent refinement pairs, plus the harness check that every returned solution refers to a binary refinement "
+              "with the original names, colours and leaf data. "
+              "Trees with single-child nodes are outside the theorems' hypotheses (binarize collapses such a node onto its child "
+              "and overwrites the child's name, a leaf included); the model mirrors that behaviour and is compared on such trees too.")
